@@ -141,6 +141,21 @@ def lean_compile(workdir: pathlib.Path, layers: list[list[str]], timeout: int = 
         with ThreadPoolExecutor(max_workers=NCPU) as ex:
             for r in ex.map(lambda n: lean_compile_one(workdir, n, timeout), layer):
                 res[r.name] = r
+    if os.environ.get("VERIF_TIER") == "thorough" and os.environ.get("VERIF_LEANCHECKER", "1") != "0":
+        # independent re-check of the compiled obligation modules (and, transitively loaded, what they import)
+        # by the toolchain's stand-alone kernel re-checker
+        last = [n for n in layers[-1] if res[n].ok]
+        if last:
+            try:
+                p = subprocess.run(["leanchecker", *last], capture_output=True, text=True, env=lean_env(workdir), timeout=1800, cwd=str(workdir))
+                ok, out = p.returncode == 0, (p.stdout + p.stderr)[-1500:]
+            except subprocess.TimeoutExpired:
+                ok, out = False, "leanchecker TIMEOUT"
+            for n in last:
+                res[n].leanchecker = ok
+                if not ok:
+                    res[n].ok = False
+                    res[n].out += "\nleanchecker: " + out
     return res
 
 
@@ -248,6 +263,9 @@ class Ctx:
         """Record compilation results. Every module is one obligation per theorem it audits with
         `#print axioms` (or one for the module when it prints none). Returns failed modules."""
         failed = []
+        rechecked = [n for n, r in res.items() if getattr(r, "leanchecker", None) is True]
+        if rechecked:
+            self.notes.append("leanchecker re-checked: " + ", ".join(rechecked))
         for name, r in res.items():
             exp = (theorems_expected or {}).get(name)
             if r.ok:
